@@ -27,7 +27,7 @@ def mc_ops():
         V("SetChipType", 1), V("SetChipType", -1),
         V("SetScaleMod", 1), V("SetFullBright", 1), V("SetArp", 1), V("SetSoftPan", 1), V("SetRunAtPcm", 1),
         V("SetDevId", 15), V("SetDevId", 16), V("SetDevId", -1),
-        V("SetLoop", 1), V("SetLoopCount", 2), V("SetHooksOnly", 1), V("SelectSong", 1),
+        V("SetLoop", 1), V("SetLoopCount", 2), V("SetHooksOnly", 1), V("SetHooksOnly", 0), V("SelectSong", 1),
         {"e": "SetTempo", "num": 2, "den": 1}, {"e": "SetTempo", "num": 0, "den": 1},
         {"e": "TrackOpt", "t": 1, "o": 2}, {"e": "TrackOpt", "t": 2, "o": 2}, {"e": "TrackOpt", "t": 0, "o": 3}, {"e": "TrackOpt", "t": 1, "o": 6},
         {"e": "ChanEn", "c": 1, "en": 0}, {"e": "ChanEn", "c": 16, "en": 0},
